@@ -392,7 +392,14 @@ class NAHooks(Hooks):
                     a = v.a
                     dt = v.dt if dtype is None else as_dt(dtype)
                     if copy or (dtype is not None and dt != v.dt):
-                        a = a.copy()
+                        a = a.copy(order=order or 'K')
+                    else:
+                        # a required memory order forces a copy unless the
+                        # array already has it (NumPy's own rule)
+                        want = {'ascontiguousarray': 'C',
+                                'asfortranarray': 'F'}.get(name, order)
+                        if want in ('C', 'F'):
+                            a = _np.array(a, copy=False, order=want)
                 else:
                     n = na_of(v, None)
                     a = n.a
